@@ -76,6 +76,10 @@ claim('C12', 'proof', K2 + '; ' + BD,
       'dispatch table of the expression parser: for every DW_OP code the registered parser reads exactly the operand kinds DWARF v5 7.7.1 / GNU extensions prescribe (closure analysis of the real table + replay of each parser on concrete operands); the name map is the inverse of the code map',
       'parse_expr loop itself (offset bookkeeping, caching) is covered by a bounded sample of expressions; wasm/GNU entry-value nesting sampled')
 
+claim('C19', 'proof', K1 + '; bounded fault injection (labelled bounded, never counted as proved)',
+      'K1 (all byte strings): ELFFile.__init__ either returns -- with the header decoded at offset 0 in the class and byte order e_ident announces and the invariants the other contracts assume -- or raises ELFError (ELFParseError is a subclass): every path of the real constructor, _identify_file, header fetch, extended string-table index and the compressed string-table header is explored; termination with an iteration bound linear in the file size is proved by loop variants for the dynamic tag walk, note walk, version-record chains, GNU/SysV hash symbol counts, RELR expansion and the section/segment/symbol enumerations under contract',
+      'ELFStructs.create_basic_structs/create_advanced_structs are assumed not to raise (K2 runs them in every configuration); memory bounds are not expressible as contracts and are covered only indirectly (iteration bounds); the enumeration battery as a whole is exercised by the bounded fault injection (truncations, header byte substitutions, random corruptions of 7 seed files, 5 s limit per case); two constructor defects were found and fixed (known_findings.json)')
+
 NOT_YET = 'not yet built in this round (DESIGN.md section 9 gives the order of work)'
 NA = {
     'C18': 'oracle is the text output of GNU readelf, a third-party binary; no contract over the real code expresses it (DESIGN.md section 5)',
